@@ -51,6 +51,10 @@ def run(chk):
     krylov_and_svd_outputs(chk)
     sliced_inference(chk)
     declare_cases(chk)
+    # bounded stand-in: the real inference on concrete sub-operators and composites of declared operators (decides when the index-domain run of a rewritten
+    # Sliced rule answers unsupported)
+    from props import native_diff
+    native_diff.run(chk, "C05")
 
     def replayer(ob):
         w = ob.witness or {}
